@@ -11,7 +11,9 @@ package verifhook
 
 import (
 	"cmp"
+	"fmt"
 	"slices"
+	"sort"
 	"sync"
 	"sync/atomic"
 )
@@ -127,6 +129,28 @@ func SortedKeys[M ~map[K]V, K cmp.Ordered, V any](m M) []K {
 	}
 	slices.Sort(keys)
 	return keys
+}
+
+// SyncMapRange replaces m.Range(f) of a sync.Map: it snapshots the map through the real Range,
+// orders the entries by the printed form of their keys and calls f in that order until it
+// returns false. Iteration order becomes a function of the content, not of the process's hash seed.
+func SyncMapRange(rangeFn func(func(key, value any) bool), f func(key, value any) bool) {
+	type kv struct {
+		s    string
+		k, v any
+	}
+	Yield("sync.Map.Range")
+	var all []kv
+	rangeFn(func(k, v any) bool {
+		all = append(all, kv{fmt.Sprintf("%T:%v", k, k), k, v})
+		return true
+	})
+	sort.SliceStable(all, func(i, j int) bool { return all[i].s < all[j].s })
+	for _, e := range all {
+		if !f(e.k, e.v) {
+			return
+		}
+	}
 }
 
 // moved counts the bytes that instrumented code moved in bulk (copy, append(x, y...) of bytes):
